@@ -55,6 +55,10 @@ def as_if_constant_ok(i0: bool, i1: bool, i2: bool, j0: bool, j1: bool, j2: bool
     return concrete(_as_if_constant, sel(i0, i1, i2), sel(j0, j1, j2))
 
 
+KNOWN_NB = __KNOWN_NB__
+FORMULA_CELLS = [k for k, v in M.template(T).items() if isinstance(v, str) and v.startswith('=') and "]'!" not in k and k not in M.VOLATILE]
+
+
 def _name_range(i, j):
     pl = M.pool()
     v, w = pl[i], pl[j]
@@ -73,7 +77,30 @@ def _name_range(i, j):
     blk = [[v, 7], [w, v]]
     e = M.norm(M.build(T).calculate(inputs={M.BLOCK: blk}))
     f = M.norm(M.build(T).calculate(inputs={M.P + 'H1': v, M.P + 'I1': 7, M.P + 'H2': w, M.P + 'I2': v}))
-    return e == f                     # a two-dimensional block == its four cells, each at its own place
+    if e != f:
+        return False                  # a two-dimensional block == its four cells, each at its own place
+    # a sparse range (five of its seven cells are blank in the model, two of them known to this range only)
+    col = [v, 3, w, 0, 2, v, 1]
+    g = M.norm(M.build(T).calculate(inputs={M.P + 'H1:H7': [[x] for x in col]}))
+    h = M.norm(M.build(T).calculate(inputs={M.P + 'H%d' % (n + 1): x for n, x in enumerate(col)}))
+    # known finding C07-override-does-not-reach-blank-cells: the blank cells H3 ... H7 and their OTHER readers
+    blank_readers = ('!H3', '!H4', '!H5', '!NB', '!H2:H5', '!G6:H7', '!K6', '!K7', '!K11') if KNOWN_NB else ()
+    if any(g[k] != h[k] for k in h if k in g and not k.endswith(blank_readers + ('!H1:H7',))):
+        return False
+    if any(k not in g for k in FORMULA_CELLS):
+        return False
+    # the same where every blank cell is known to ranges only and each range holds a stored cell: no exclusion
+    col = [v, 8, w, 4, v]
+    g = M.norm(M.build(T).calculate(inputs={M.P + 'I1:I5': [[x] for x in col]}))
+    h = M.norm(M.build(T).calculate(inputs={M.P + 'I%d' % (n + 1): x for n, x in enumerate(col)}))
+    if any(g.get(k) != h[k] for k in FORMULA_CELLS):
+        return False
+    # through a defined name over a cell that is blank in the model == to that cell
+    a = M.norm(M.build(T).calculate(inputs={M.NB: v}))
+    b = M.norm(M.build(T).calculate(inputs={M.P + 'H3': v}))
+    if any(a.get(k) != b[k] for k in FORMULA_CELLS):
+        return bool(KNOWN_NB)         # known finding C07-override-does-not-reach-blank-cells
+    return True
 
 
 def name_and_range_ok(i0: bool, i1: bool, i2: bool, j0: bool, j1: bool, j2: bool) -> bool:
